@@ -40,7 +40,7 @@ ASSUMPTIONS = [
     "a compiler-introduced goal fluent counts as holding iff one of the actions that set it (mapped back to no action) is applicable (H11)",
 ]
 SHARD_TIMEOUT = {"quick": 900, "thorough": 5400}
-BOUNDS = {"quick": dict(n=160, max_states=256), "thorough": dict(n=3000, max_states=256)}
+BOUNDS = {"quick": dict(n=160, max_states=256), "thorough": dict(n=12000, max_states=256)}
 
 
 def plan(tier, seed):
